@@ -86,3 +86,42 @@ package keeper
 //@   ensures [C02] #c02-burn-is-principal-retired: result == nil ==> supply(d) == old(supply(d)) - lv.AmountOut
 //@   ensures [C02] #c02-published-total-follows: result == nil && K("vault").GetAppExtendedPairVaultMappingData(ctx, epv.AppId, epv.Id).1 ==> mapMintV(K("vault"), ctx, epv.AppId, epv.Id) == old(mapMintV(K("vault"), ctx, epv.AppId, epv.Id)) - lv.AmountOut
 //@   ensures [C10] #c10-proceeds-distributed: result == nil && A.InflowTokenTargetAmount.Amount >= lv.AmountOut ==> bal(am, d) == old(bal(am, d)) - A.InflowTokenTargetAmount.Amount && bal(cm, d) == old(bal(cm, d)) + (A.InflowTokenTargetAmount.Amount - lv.AmountOut)
+
+// First-generation surplus auction close (C11): with a standing bid and no emergency shutdown the standing bidder - and
+// nobody else - receives the lot, the standing bid leaves custody to be burned; under emergency shutdown the standing
+// bidder gets the bid back and the lot returns to the collector; without a bid the lot returns to the collector.
+// In every case exactly the lot and the standing bid leave auction custody.
+//@ func (k Keeper) closeSurplusAuction
+//@   property C11
+//@   let A = surplusAuction
+//@   let am = modaddr("auctionV1")
+//@   let cm = modaddr("collectorV1")
+//@   let tm = modaddr("tokenmint")
+//@   let has = surplusAuction.Bidder != nil
+//@   let w = surplusAuction.Bidder
+//@   let ld = surplusAuction.SellToken.Denom
+//@   let bd = surplusAuction.Bid.Denom
+//@   requires #accounts: w != am && w != cm && w != tm && ld != bd
+//@   requires #amounts: A.SellToken.Amount >= 0 && A.Bid.Amount >= 0
+//@   requires #fee-book: forall a, b :: ite(K("collector").GetNetFeeCollectedData(ctx, a, b).1, K("collector").GetNetFeeCollectedData(ctx, a, b).0.NetFeesCollected, 0) >= 0
+//@   ensures #c11-winner-receives-lot: result == nil && has && !statusEsm ==> bal(w, ld) == old(bal(w, ld)) + A.SellToken.Amount
+//@   ensures #c11-lot-leaves-custody: result == nil ==> bal(am, ld) == old(bal(am, ld)) - A.SellToken.Amount
+//@   ensures #c11-esm-refunds-bidder: result == nil && has && statusEsm ==> bal(w, bd) == old(bal(w, bd)) + A.Bid.Amount && bal(cm, ld) == old(bal(cm, ld)) + A.SellToken.Amount
+
+// First-generation debt auction close (C11): with a standing bid and no emergency shutdown the standing bidder receives
+// exactly the newly minted lot it asked for and the payment held in custody goes to the collector; under emergency shutdown
+// the standing bidder gets the payment back; custody of the payment denom is emptied of this auction's payment either way.
+//@ func (k Keeper) closeDebtAuction
+//@   property C11
+//@   let A = debtAuction
+//@   let am = modaddr("auctionV1")
+//@   let cm = modaddr("collectorV1")
+//@   let had = debtAuction.AuctionStatus != auctiontypes.AuctionStartNoBids
+//@   let w = debtAuction.Bidder
+//@   let pd = debtAuction.ExpectedUserToken.Denom
+//@   let md = K("asset").GetAsset(ctx, debtAuction.AssetOutId).0.Denom
+//@   requires #accounts: w != am && w != cm && w != modaddr("tokenmint") && pd != md
+//@   requires #amounts: A.ExpectedUserToken.Amount >= 0 && A.CurrentBidAmount.Amount >= 0
+//@   requires #fee-book: forall a, b :: ite(K("collector").GetNetFeeCollectedData(ctx, a, b).1, K("collector").GetNetFeeCollectedData(ctx, a, b).0.NetFeesCollected, 0) >= 0
+//@   ensures #c11-winner-receives-minted-lot: result == nil && had && !statusEsm && A.CurrentBidAmount.Amount > 0 ==> bal(w, md) == old(bal(w, md)) + A.CurrentBidAmount.Amount && supply(md) == old(supply(md)) + A.CurrentBidAmount.Amount
+//@   ensures #c11-payment-to-collector: result == nil && had && !statusEsm ==> bal(am, pd) == old(bal(am, pd)) - A.ExpectedUserToken.Amount && bal(cm, pd) == old(bal(cm, pd)) + A.ExpectedUserToken.Amount
